@@ -7,6 +7,8 @@ import (
 	"runtime"
 	"strings"
 	"sync"
+	"sync/atomic"
+	"time"
 
 	restful "github.com/emicklei/go-restful/v3"
 
@@ -401,14 +403,145 @@ func genBehs(r *core.Rand, max int) []int {
 	return out
 }
 
+// asyncState is the per-request rendezvous of asyncChain.
+type asyncState struct {
+	mu       sync.Mutex
+	names    []string
+	bEntered chan struct{}
+	released chan struct{}
+	finished chan struct{}
+	once     sync.Once
+}
+type asyncKey struct{}
+
+func (a *asyncState) log(n string) {
+	a.mu.Lock()
+	a.names = append(a.names, n)
+	a.mu.Unlock()
+}
+
+type discardW struct{ h http.Header }
+
+func (d *discardW) Header() http.Header         { return d.h }
+func (d *discardW) WriteHeader(int)             {}
+func (d *discardW) Write(b []byte) (int, error) { return len(b), nil }
+
+var asyncBroken int32
+
+// asyncChain: a filter in the style of http.TimeoutHandler - it hands the rest of the chain, with a response of its own, to
+// another goroutine, answers 504 itself and returns while the chain below has only reached the next filter. That filter goes on
+// only after Dispatch has returned to its caller. Every element still runs exactly once, in order.
+func asyncChain(ctx *core.Ctx, ci int, router string) {
+	stOf := func(r *http.Request) *asyncState { return r.Context().Value(asyncKey{}).(*asyncState) }
+	rec := func(n string) restful.FilterFunction {
+		return func(req *restful.Request, resp *restful.Response, chain *restful.FilterChain) {
+			stOf(req.Request).log(n)
+			chain.ProcessFilter(req, resp)
+		}
+	}
+	c := restful.NewContainer()
+	if router == "jsr311" {
+		c.Router(restful.RouterJSR311{})
+	}
+	c.Filter(rec("A"))
+	c.Filter(func(req *restful.Request, resp *restful.Response, chain *restful.FilterChain) {
+		st := stOf(req.Request)
+		st.log("T")
+		inner := restful.NewResponse(&discardW{h: http.Header{}})
+		go func() {
+			defer st.once.Do(func() { close(st.finished) })
+			defer func() { recover() }()
+			chain.ProcessFilter(req, inner)
+		}()
+		select {
+		case <-st.bEntered:
+		case <-time.After(20 * time.Second):
+			st.log("T-gave-up-waiting-for-B") // shows up as a wrong sequence
+		}
+		resp.WriteHeader(504)
+	})
+	c.Filter(func(req *restful.Request, resp *restful.Response, chain *restful.FilterChain) {
+		st := stOf(req.Request)
+		st.log("B")
+		select {
+		case <-st.bEntered:
+		default:
+			close(st.bEntered)
+		}
+		<-st.released // the caller of Dispatch has its answer; only now does the chain below go on
+		chain.ProcessFilter(req, resp)
+	})
+	c.Filter(rec("C"))
+	ws := new(restful.WebService).Path("/async").Filter(rec("S"))
+	ws.Route(ws.GET("/x").Filter(rec("R")).To(func(req *restful.Request, resp *restful.Response) {
+		stOf(req.Request).log("H")
+		resp.Write([]byte("late answer"))
+	}))
+	c.Add(ws)
+	one := func(mode string) {
+		if atomic.LoadInt32(&asyncBroken) != 0 {
+			return
+		}
+		st := &asyncState{bEntered: make(chan struct{}), released: make(chan struct{}), finished: make(chan struct{})}
+		req := rt.Req{Method: "GET", Path: "/async/x"}
+		hr := rt.HTTPRequest(&req, nil)
+		hr = hr.WithContext(context.WithValue(context.Background(), asyncKey{}, st))
+		w := rt.NewRec()
+		c.Dispatch(w, hr)
+		close(st.released)
+		select {
+		case <-st.finished:
+		case <-time.After(30 * time.Second):
+			atomic.StoreInt32(&asyncBroken, 1)
+			ctx.Inconclusive("the chain behind an asynchronous filter did not finish")
+			return
+		}
+		ctx.Eval(1)
+		ctx.Count("requests_through_an_asynchronous_filter", 1)
+		st.mu.Lock()
+		got := strings.Join(st.names, " ")
+		st.mu.Unlock()
+		if got != "A T B C S R H" || w.Code() != 504 {
+			atomic.StoreInt32(&asyncBroken, 1) // one witness is enough; further requests would only wait for their watchdogs
+			cls := "order"
+			seen := map[string]bool{}
+			for _, n := range st.names {
+				if seen[n] {
+					cls = "twice"
+				}
+				seen[n] = true
+			}
+			ctx.Violation(ci, "c06:"+cls+":async-filter:"+mode, fmt.Sprintf("elements ran as [%s] (status %d); each runs once, in the order A T B C S R H, and the filter's own 504 is the answer", got, w.Code()),
+				map[string]interface{}{"router": router, "ran": st.names, "status": w.Code()})
+		}
+	}
+	for i := 0; i < 6; i++ {
+		one("sequential")
+	}
+	var wg sync.WaitGroup
+	for g := 0; g < 4; g++ {
+		wg.Add(1)
+		go func() {
+			defer wg.Done()
+			for i := 0; i < 3; i++ {
+				one("concurrent")
+			}
+		}()
+	}
+	wg.Wait()
+}
+
 func c06(ctx *core.Ctx) {
 	quietLogs()
-	ctx.Rule("generated configurations: 0-5 container filters (now and then 9, 17, 33 or 65 at a level), two WebServices with 0-3 service filters, two routes and a pair of representation twins (same method and path, JSON vs XML) with 0-3 route filters each, now and then two routes built from one reused RouteBuilder (the second inherits the first one's filters), every filter named after its owner, behaviour per filter in {pass, set attribute, replace Request (all attributes copied, or some dropped and one overridden), replace Response, replace http.Request (derived or on a fresh context), HttpMiddlewareHandlerToFilter around a wrapping middleware, set ResponseWriter}; any filter short-circuits on demand of the request; service / container filters registered before or after the routes / services; handlers that panic (recovery on: nothing in the chain may run a second time). 40-request sequences (routed, 404 and 405 routing failures with POST/HEAD/PUT/DELETE/PATCH, HandleWithFilter) run sequentially on one container and then from 16 (every 5th configuration: 70) goroutines (race detector on). Offline checker per request: exact enter/pass/exit sequence = prefix of [container.., service.., route.., handler] with reversed exits, each once, hand-over identity of (Request, Response, http.Request, writer, attributes). Non-trivial = a request whose chain has >= 2 elements; distinct by (filter counts per level, short-circuit position, request kind, behaviours on the path).")
+	ctx.Rule("generated configurations: 0-5 container filters (now and then 9, 17, 33 or 65 at a level), two WebServices with 0-3 service filters, two routes and a pair of representation twins (same method and path, JSON vs XML) with 0-3 route filters each, now and then two routes built from one reused RouteBuilder (the second inherits the first one's filters), every filter named after its owner, behaviour per filter in {pass, set attribute, replace Request (all attributes copied, or some dropped and one overridden), replace Response, replace http.Request (derived or on a fresh context), HttpMiddlewareHandlerToFilter around a wrapping middleware, set ResponseWriter}; any filter short-circuits on demand of the request; service / container filters registered before or after the routes / services; handlers that panic (recovery on: nothing in the chain may run a second time). 40-request sequences (routed, 404 and 405 routing failures with POST/HEAD/PUT/DELETE/PATCH, HandleWithFilter) run sequentially on one container and then from 16 (every 5th configuration: 70) goroutines (race detector on). Every fifth configuration also runs a fixed chain with a filter in the style of http.TimeoutHandler (hands the chain below, with a response of its own, to another goroutine, answers 504 and returns early): every element still runs once, in order. Offline checker per request: exact enter/pass/exit sequence = prefix of [container.., service.., route.., handler] with reversed exits, each once, hand-over identity of (Request, Response, http.Request, writer, attributes). Non-trivial = a request whose chain has >= 2 elements; distinct by (filter counts per level, short-circuit position, request kind, behaviours on the path).")
 	ctx.Assume("a filter that replaces the Request copies the attributes it knows about (the API offers no enumeration)")
 	configs := ctx.N(250, 20000)
 	for ci := 0; ci < configs; ci++ {
 		if ctx.Skip(ci) {
 			continue
+		}
+		if ci%10 == 4 || ci%10 == 9 {
+			asyncChain(ctx, ci, routerOf(ci))
 		}
 		r := ctx.Rand(ci, "cfg")
 		cfg := &c06Config{Router: routerOf(ci), Container: genBehs(r, 5), LateSvc: r.Chance(1, 3), LateCont: r.Chance(1, 3)}
